@@ -76,7 +76,8 @@ def add_dir(d=I, ns=NSMASK, rsz=RSZ, sz=SZ):
 
 rm_file = op('rm_file', b=I, j=I)
 rm_dir = op('rm_dir', d=I, ns=st.sampled_from([7, 7, 7, 7, 1, 2, 4, 3]))
-add_link = op('add_link', b=I, j=I, to=I, d=I, sz=SZ, rsz=RSZ, usz=st.integers(0, 4), lead=I, salt=I, reuse=st.one_of(st.just(0), st.integers(1, 1 << 16)))
+add_link = op('add_link', b=I, j=I, to=I, d=I, sz=SZ, rsz=RSZ, usz=st.integers(0, 4), lead=I, salt=I, reuse=st.one_of(st.just(0), st.integers(1, 1 << 16)),
+              symsrc=st.sampled_from([0] * 9 + [1, 2]))
 rm_link = op('rm_link', b=I, j=I)
 add_sym = op('add_sym', d=I, form=st.integers(0, 3), jol=st.booleans(), tgt=I, sz=SZ, rsz=RSZ, usz=st.integers(0, 4), lead=I, salt=I, reuse=REUSE, magic=MAGIC,
              tu=st.one_of(st.just(0), st.just(0), st.just(0), st.just(0), st.integers(1, 40)))
